@@ -25,10 +25,13 @@ def eq_bytes(a, b):
 class UF:
     """table of applications of one uninterpreted function on byte strings"""
 
-    def __init__(self, name):
+    def __init__(self, name, injective_prefix=0):
         self.name = name
         self.apps = []  # (inputs tuple, output SymBytes)
         self.calls = 0
+        # optional assumption (A-HMAC): distinct inputs give outputs that differ within the first `injective_prefix`
+        # bytes. Only ever switched on by a harness that reports it.
+        self.injective_prefix = injective_prefix
 
     def apply(self, inputs, outlen):
         ctx = Ctx.cur
@@ -37,8 +40,16 @@ class UF:
         for ins2, out2 in self.apps:
             if len(ins2) != len(inputs) or len(out2.cells) != outlen:
                 continue
+            if any(len(seq_cells(a, SymBytes)) != len(seq_cells(b, SymBytes)) for a, b in zip(inputs, ins2)):
+                if self.injective_prefix:
+                    k = self.injective_prefix
+                    ctx.solver.add(z3.Not(eq_bytes(SymBytes(out.cells[:k]), SymBytes(out2.cells[:k]))))
+                continue
             same = z3.And(*[eq_bytes(a, b) for a, b in zip(inputs, ins2)])
             ctx.solver.add(z3.Implies(same, eq_bytes(out, out2)))
+            if self.injective_prefix:
+                k = self.injective_prefix
+                ctx.solver.add(z3.Implies(z3.Not(same), z3.Not(eq_bytes(SymBytes(out.cells[:k]), SymBytes(out2.cells[:k])))))
         self.apps.append((tuple(inputs), out))
         return out
 
@@ -46,8 +57,8 @@ class UF:
 class CryptoEnv:
     """one per path"""
 
-    def __init__(self):
-        self.hmac = UF("hmac")
+    def __init__(self, a_hmac=False):
+        self.hmac = UF("hmac", 16 if a_hmac else 0)
         self.sha = UF("sha256")
         self.enc = []  # (key, iv, pt, ct)
         self.dec_calls = 0
@@ -101,7 +112,9 @@ class AESShim:
             return ENV.aes_decrypt(self.key, self.iv, data)
 
     @staticmethod
-    def new(key, mode, iv=None):
+    def new(key, mode, iv=None, **kw):
+        if key is None or iv is None:
+            raise TypeError("key/iv must be bytes")
         if m_len(key) not in (16, 24, 32):
             raise ValueError("Incorrect AES key length")
         if m_len(iv) != 16:
@@ -123,5 +136,39 @@ class HmacShim:
         return HmacShim._H(key, msg)
 
 
-for obj in (AESShim.new, HmacShim.new):
+class HashlibShim:
+    __symx_model__ = True
+
+    class _S:
+        __symx_model__ = True
+
+        def __init__(self, data):
+            self.data = data
+
+        def digest(self):
+            return ENV.sha.apply([self.data], 32)
+
+        def hexdigest(self):
+            return ENV.sha.apply([self.data], 32).hex()
+
+    @staticmethod
+    def sha256(data=b""):
+        return HashlibShim._S(data)
+
+
+for obj in (AESShim.new, HmacShim.new, HashlibShim.sha256):
     obj.__symx_model__ = True
+for cls in (AESShim, AESShim._Cipher, HmacShim, HmacShim._H):
+    cls.__symx_model__ = True
+
+
+def install():
+    from .interp import DEFAULT_OVERRIDES
+
+    DEFAULT_OVERRIDES.update(AES=AESShim, hmac=HmacShim, hashlib=HashlibShim)
+
+
+def new_env(**kw):
+    global ENV
+    ENV = CryptoEnv(**kw)
+    return ENV
